@@ -1,143 +1,10 @@
-(* JsonSemDnf.v -- merge / invert on any-of lists and _to_dnf on the propositional-scalar fragment (C06). *)
-From Fences Require Import Normalize NormShape JsonValid JsonGen JsonEnum JsonSem.
+(* JsonSemDnf.v -- the propositional-scalar fragment, its meaning, and _to_dnf on it (C06). *)
+From Fences Require Import Normalize NormShape JsonValid JsonGen JsonEnum JsonSem JsonSemAlts.
 From Coq Require Import String ZArith Lia.
 Local Open Scope list_scope.
 
-(* ---------- merge (full): the any-of lists are multiplied out ---------- *)
-Definition row_step (o : dict) := (fun (acc : list dict) (i : dict) => do ii <- merge2 i o; Ok (acc ++ [ii])).
-
-Lemma row_sem o : scalar_alt o -> forall result acc row,
-  Forall galt result -> foldM (row_step o) result acc = Ok row ->
-  exists ms, row = acc ++ ms /\ Forall galt ms /\
-             forall x, alts_valid ms x <-> alts_valid result x /\ dvalid o x.
-Proof.
-  intros So. induction result as [|i result IH]; intros acc row Fg H; cbn [foldM] in H.
-  - inversion H; subst. exists []. rewrite app_nil_r. split; [reflexivity|]. split; [constructor|].
-    intros x. split; [intros (d & [] & _)|intros [(d & [] & _) _]].
-  - inversion Fg as [|? ? Gi Fg']; subst. unfold row_step at 1 in H.
-    destruct (merge2 i o) as [ii| | |] eqn:E; cbn [bind] in H; try discriminate.
-    destruct (merge2_scalar i o ii Gi So E) as [Gii Eq].
-    destruct (IH _ _ Fg' H) as (ms & -> & Fm & Eqs).
-    exists (ii :: ms). rewrite <- app_assoc. split; [reflexivity|]. split; [constructor; auto|].
-    intros x. split.
-    + intros (d & [<-|Hd] & V).
-      * apply Eq in V. destruct V as [V1 V2]. split; [exists i; split; [left; reflexivity|exact V1]|exact V2].
-      * destruct (proj1 (Eqs x) (ex_intro _ d (conj Hd V))) as [(d1 & H1 & V1) V2].
-        split; [exists d1; split; [right; exact H1|exact V1]|exact V2].
-    + intros [(d & [<-|Hd] & V1) V2].
-      * exists ii. split; [left; reflexivity|]. apply Eq. auto.
-      * destruct (proj2 (Eqs x) (conj (ex_intro _ d (conj Hd V1)) V2)) as (d1 & H1 & W1).
-        exists d1. split; [right; exact H1|exact W1].
-Qed.
-
-Definition opt_step (result : list dict) := (fun (new_result : list dict) (option : json) =>
-   do o <- as_dict option;
-   do row <- foldM (fun acc i => do ii <- merge2 i o; Ok (acc ++ [ii])) result [];
-   Ok (new_result ++ row)).
-
-Lemma opts_sem result : Forall galt result -> forall (opts : list dict) acc new,
-  Forall galt opts -> foldM (opt_step result) (map JObj opts) acc = Ok new ->
-  exists ms, new = acc ++ ms /\ Forall galt ms /\
-             forall x, alts_valid ms x <-> alts_valid result x /\ alts_valid opts x.
-Proof.
-  intros Fr. induction opts as [|o opts IH]; intros acc new Fo H; cbn [map foldM] in H.
-  - inversion H; subst. exists []. rewrite app_nil_r. split; [reflexivity|]. split; [constructor|].
-    intros x. split; [intros (d & [] & _)|intros [_ (d & [] & _)]].
-  - inversion Fo as [|? ? Go Fo']; subst. unfold opt_step at 1 in H. cbn [as_dict bind] in H.
-    match type of H with bind (bind ?X _) _ = _ => destruct X as [row| | |] eqn:E end; cbn [bind] in H; try discriminate.
-    destruct (row_sem o (proj1 Go) result [] row Fr E) as (ms1 & -> & F1 & Eq1). cbn [app] in H.
-    destruct (IH _ _ Fo' H) as (ms & -> & Fm & Eqs).
-    exists (ms1 ++ ms). rewrite app_assoc. split; [reflexivity|]. split; [apply Forall_app; auto|].
-    intros x. split.
-    + intros (d & Hd & V). apply in_app_or in Hd. destruct Hd as [Hd|Hd].
-      * destruct (proj1 (Eq1 x) (ex_intro _ d (conj Hd V))) as [R V2]. split; [exact R|exists o; split; [left; reflexivity|exact V2]].
-      * destruct (proj1 (Eqs x) (ex_intro _ d (conj Hd V))) as [R (d1 & H1 & V1)]. split; [exact R|exists d1; split; [right; exact H1|exact V1]].
-    + intros [R (d & [<-|Hd] & V)].
-      * destruct (proj2 (Eq1 x) (conj R V)) as (d1 & H1 & V1). exists d1. split; [apply in_or_app; left; exact H1|exact V1].
-      * destruct (proj2 (Eqs x) (conj R (ex_intro _ d (conj Hd V)))) as (d1 & H1 & V1). exists d1. split; [apply in_or_app; right; exact H1|exact V1].
-Qed.
-
-Definition schema_step := (fun (result : list dict) (schema : json) =>
-   do opts <- any_of schema;
-   foldM (fun new_result option =>
-            do o <- as_dict option;
-            do row <- foldM (fun acc i => do ii <- merge2 i o; Ok (acc ++ [ii])) result [];
-            Ok (new_result ++ row)) opts []).
-
-Lemma schemas_sem : forall (ls : list (list dict)) result final,
-  Forall galt result -> Forall (Forall galt) ls ->
-  foldM schema_step (map dnf_of ls) result = Ok final ->
-  Forall galt final /\ forall x, alts_valid final x <-> alts_valid result x /\ Forall (fun l => alts_valid l x) ls.
-Proof.
-  induction ls as [|l ls IH]; intros result final Fr Fl H; cbn [map foldM] in H.
-  - inversion H; subst. split; [exact Fr|]. intros x. split; [intros V; split; [exact V|constructor]|tauto].
-  - inversion Fl as [|? ? Gl Fl']; subst. unfold schema_step at 1 in H. rewrite any_of_dnf in H. cbn [bind] in H.
-    match type of H with bind ?X _ = _ => destruct X as [new| | |] eqn:E end; cbn [bind] in H; try discriminate.
-    destruct (opts_sem result Fr l [] new Gl E) as (ms & -> & Fm & Eq). cbn [app] in H.
-    destruct (IH _ _ Fm Fl' H) as [Ff Eqs]. split; [exact Ff|].
-    intros x. rewrite (Eqs x), (Eq x). split.
-    + intros [[R L] Ls]. split; [exact R|constructor; auto].
-    + intros [R Ls]. inversion Ls; subst. tauto.
-Qed.
-
-Lemma dvalid_nil x : dvalid [] x.
-Proof. intros k v G. discriminate G. Qed.
-
-Lemma galt_nil : galt [].
-Proof. split; [intros k v G; discriminate G|constructor]. Qed.
-
-(* merge with full_merge: the result is satisfied exactly by the instances satisfying every argument *)
-Theorem merge_full_sem ls n : Forall (Forall galt) ls ->
-  merge_full_ (map dnf_of ls) = Ok n ->
-  exists l, n = dnf_of l /\ Forall galt l /\ forall x, alts_valid l x <-> Forall (fun l' => alts_valid l' x) ls.
-Proof.
-  intros Fl H. unfold merge_full_ in H.
-  destruct ls as [|l0 ls0]; [discriminate H|]. remember (l0 :: ls0) as ls eqn:E. clear E l0 ls0.
-  destruct (map dnf_of ls) eqn:Em; [discriminate H|]. rewrite <- Em in H. clear Em.
-  match type of H with bind ?X _ = _ => destruct X as [final| | |] eqn:E end; cbn [bind] in H; try discriminate.
-  inversion H; subst n.
-  destruct (schemas_sem ls [[]] final (Forall_cons _ galt_nil (Forall_nil _)) Fl E) as [Ff Eq].
-  exists final. split; [reflexivity|]. split; [exact Ff|].
-  intros x. rewrite (Eq x). split; [tauto|]. intros Hx. split; [|exact Hx].
-  exists []. split; [left; reflexivity|apply dvalid_nil].
-Qed.
-
-(* ---------- invert ---------- *)
-Lemma invert_list : forall (l : list dict) acc, Forall galt l ->
-  exists ls', foldM (fun acc i => do x <- invert1 i; Ok (acc ++ [x])) (map JObj l) acc = Ok (acc ++ map dnf_of ls') /\
-              Forall (Forall galt) ls' /\
-              Forall2 (fun d l' => forall x, alts_valid l' x <-> ~ dvalid d x) l ls'.
-Proof.
-  induction l as [|d l IH]; intros acc Fl; cbn [map foldM].
-  - exists []. cbn [map]. rewrite app_nil_r. split; [reflexivity|]. split; constructor.
-  - inversion Fl as [|? ? Gd Fl']; subst.
-    destruct (invert1_sem d Gd) as (l' & E & Fg & Eq). rewrite E. cbn [bind].
-    destruct (IH (acc ++ [dnf_of l']) Fl') as (ls' & EF & FF & F2).
-    exists (l' :: ls'). cbn [map]. rewrite EF, <- app_assoc. split; [reflexivity|]. split; constructor; auto.
-Qed.
-
-Theorem invert_sem cfg l n : full_merge cfg = true -> Forall galt l ->
-  invert cfg (dnf_of l) = Ok n ->
-  exists l', n = dnf_of l' /\ Forall galt l' /\ forall x, alts_valid l' x <-> ~ alts_valid l x.
-Proof.
-  intros FM Fl H. unfold invert in H. rewrite any_of_dnf in H. cbn [bind] in H.
-  destruct (invert_list l [] Fl) as (ls' & E & FF & F2). rewrite E in H. cbn [bind app] in H.
-  unfold merge in H. rewrite FM in H.
-  destruct (merge_full_sem ls' n FF H) as (l'' & -> & Fg & Eq).
-  exists l''. split; [reflexivity|]. split; [exact Fg|].
-  intros x. rewrite (Eq x). clear - F2. induction F2 as [|d l' l ls' Hd F2 IH].
-  - split; [intros _ (d & [] & _)|constructor].
-  - split.
-    + intros Hx. inversion Hx as [|? ? Hl' Hls]; subst. intros (d1 & [<-|H1] & V).
-      * apply (Hd x) in Hl'. exact (Hl' V).
-      * apply IH in Hls. apply Hls. exists d1. auto.
-    + intros H. constructor.
-      * apply Hd. intros V. apply H. exists d. split; [left; reflexivity|exact V].
-      * apply IH. intros (d1 & H1 & V). apply H. exists d1. split; [right; exact H1|exact V].
-Qed.
-
 (* ---------- the fragment and its meaning ---------- *)
-Definition CK : list str := kws ["allOf"; "anyOf"; "not"]%string.
+Definition CK : list str := LK ++ UK ++ [kw "const"].
 
 (* schemas of the fragment, to nesting depth f *)
 Fixpoint frag (f : nat) (s : json) : Prop :=
@@ -149,16 +16,20 @@ Fixpoint frag (f : nat) (s : json) : Prop :=
     | JObj d =>
       NoDup (map fst d) /\
       forall k v, dget k d = Some v ->
-        (In k SK /\ wtv k v /\ (k = kw "type" -> ~ In (jstr "integer") (to_list v))) \/
-        (k = kw "allOf" /\ exists l, v = JArr l /\ forall s', In s' l -> frag f' s') \/
-        (k = kw "anyOf" /\ exists l, v = JArr l /\ forall s', In s' l -> frag f' s') \/
-        (k = kw "not" /\ frag f' v)
+        if smem k SK then wtv k v /\ (k = kw "type" -> ~ In (jstr "integer") (to_list v))
+        else if smem k LK then exists l, v = JArr l /\ forall s', In s' l -> frag f' s'
+        else if smem k UK then frag f' v
+        else if str_eqb k (kw "const") then is_scalar v = true
+        else False
     | _ => False
     end
   end.
 
-(* when an instance is accepted: every scalar keyword, every member of allOf, some member of anyOf, not the
-   schema under not (Draft 2020-12, for these keywords) *)
+(* exactly one member has the property *)
+Definition one_of {A} (P : A -> Prop) (l : list A) : Prop :=
+  exists i s, nth_error l i = Some s /\ P s /\ forall j s', j <> i -> nth_error l j = Some s' -> ~ P s'.
+
+(* when an instance is accepted (Draft 2020-12, for these keywords) *)
 Fixpoint sem (f : nat) (x : json) (s : json) : Prop :=
   match f with
   | 0 => False
@@ -167,12 +38,124 @@ Fixpoint sem (f : nat) (x : json) (s : json) : Prop :=
     | JBool b => b = true
     | JObj d =>
       (forall k v, dget k d = Some v -> In k SK -> kvalid k v x) /\
+      (forall c, dget (kw "const") d = Some c -> json_eqb x c = true) /\
       (forall l, dget (kw "allOf") d = Some (JArr l) -> forall s', In s' l -> sem f' x s') /\
       (forall l, dget (kw "anyOf") d = Some (JArr l) -> exists s', In s' l /\ sem f' x s') /\
-      (forall n, dget (kw "not") d = Some n -> ~ sem f' x n)
+      (forall l, dget (kw "oneOf") d = Some (JArr l) -> one_of (sem f' x) l) /\
+      (forall n, dget (kw "not") d = Some n -> ~ sem f' x n) /\
+      (forall i, dget (kw "if") d = Some i ->
+         (sem f' x i -> forall t, dget (kw "then") d = Some t -> sem f' x t) /\
+         (~ sem f' x i -> forall e, dget (kw "else") d = Some e -> sem f' x e))
     | _ => False
     end
   end.
+
+(* ---------- reading a dict of the fragment ---------- *)
+Lemma smem_In k l : smem k l = true <-> In k l.
+Proof.
+  induction l as [|y l IH]; cbn [smem In]; [split; [discriminate|tauto]|].
+  rewrite orb_true_iff, IH, str_eqb_true. tauto.
+Qed.
+
+Section Frag.
+Variable m : nat.
+Variable d : dict.
+Hypothesis F : frag (S m) (JObj d).
+
+Lemma frag_nodup : NoDup (map fst d).
+Proof. exact (proj1 F). Qed.
+
+Lemma frag_scalar k v : dget k d = Some v -> In k SK ->
+  wtv k v /\ (k = kw "type" -> ~ In (jstr "integer") (to_list v)).
+Proof. intros G I. pose proof (proj2 F k v G) as H. rewrite (proj2 (smem_In k SK) I) in H. exact H. Qed.
+
+Lemma frag_list k v : dget k d = Some v -> In k LK -> exists l, v = JArr l /\ forall s', In s' l -> frag m s'.
+Proof.
+  intros G I. pose proof (proj2 F k v G) as H.
+  assert (E : smem k SK = false) by (cbv in I; repeat (destruct I as [<-|I]; [reflexivity|]); destruct I).
+  rewrite E, (proj2 (smem_In k LK) I) in H. exact H.
+Qed.
+
+Lemma frag_single k v : dget k d = Some v -> In k UK -> frag m v.
+Proof.
+  intros G I. pose proof (proj2 F k v G) as H.
+  assert (E : smem k SK = false /\ smem k LK = false) by (cbv in I; repeat (destruct I as [<-|I]; [split; reflexivity|]); destruct I).
+  destruct E as [E1 E2]. rewrite E1, E2, (proj2 (smem_In k UK) I) in H. exact H.
+Qed.
+
+Lemma frag_const v : dget (kw "const") d = Some v -> is_scalar v = true.
+Proof. intros G. exact (proj2 F _ v G). Qed.
+
+Lemma frag_keys k v : dget k d = Some v -> In k (SK ++ CK).
+Proof.
+  intros G. pose proof (proj2 F k v G) as H. apply in_or_app.
+  destruct (smem k SK) eqn:E1; [left; apply smem_In; exact E1|]. right. unfold CK. apply in_or_app.
+  destruct (smem k LK) eqn:E2; [left; apply smem_In; exact E2|]. right. apply in_or_app.
+  destruct (smem k UK) eqn:E3; [left; apply smem_In; exact E3|]. right.
+  destruct (str_eqb k (kw "const")) eqn:E4; [|destruct H]. apply str_eqb_true in E4. left. auto.
+Qed.
+
+Lemma frag_absent k : ~ In k (SK ++ CK) -> dget k d = None.
+Proof. intros N. destruct (dget k d) eqn:G; auto. exfalso. apply N. eapply frag_keys; eauto. Qed.
+End Frag.
+
+(* ---------- more depth changes nothing ---------- *)
+Lemma frag_mono : forall m s, frag m s -> frag (S m) s.
+Proof.
+  induction m as [|m IH]; intros s H; [destruct H|].
+  destruct s as [|b|z|s0|l0|d]; try exact H. destruct H as [ND Hk]. split; [exact ND|].
+  intros k v G. specialize (Hk k v G).
+  destruct (smem k SK); [exact Hk|]. destruct (smem k LK).
+  - destruct Hk as (l & -> & Fl). exists l. split; [reflexivity|]. intros s' Hs. apply IH. auto.
+  - destruct (smem k UK); [apply IH; exact Hk|exact Hk].
+Qed.
+
+Lemma one_of_ext {A} (P Q : A -> Prop) l : (forall s, In s l -> (P s <-> Q s)) -> (one_of P l <-> one_of Q l).
+Proof.
+  intros E. unfold one_of. split; intros (i & s & N & Ps & O); exists i, s; (split; [exact N|]); split.
+  - apply E; [eapply nth_error_In; eauto|exact Ps].
+  - intros j s' Nj Ns Qs. apply (O j s' Nj Ns). apply E; [eapply nth_error_In; eauto|exact Qs].
+  - apply E; [eapply nth_error_In; eauto|exact Ps].
+  - intros j s' Nj Ns Qs. apply (O j s' Nj Ns). apply E; [eapply nth_error_In; eauto|exact Qs].
+Qed.
+
+Lemma sem_mono x : forall m s, frag m s -> (sem (S m) x s <-> sem m x s).
+Proof.
+  induction m as [|m IH]; intros s H; [destruct H|].
+  destruct s as [|b|z|s0|l0|d]; try (exfalso; exact H); [cbn [sem]; tauto|].
+  pose proof H as F. change (sem (S (S m)) x (JObj d)) with
+    ((forall k v, dget k d = Some v -> In k SK -> kvalid k v x) /\
+     (forall c, dget (kw "const") d = Some c -> json_eqb x c = true) /\
+     (forall l, dget (kw "allOf") d = Some (JArr l) -> forall s', In s' l -> sem (S m) x s') /\
+     (forall l, dget (kw "anyOf") d = Some (JArr l) -> exists s', In s' l /\ sem (S m) x s') /\
+     (forall l, dget (kw "oneOf") d = Some (JArr l) -> one_of (sem (S m) x) l) /\
+     (forall n, dget (kw "not") d = Some n -> ~ sem (S m) x n) /\
+     (forall i, dget (kw "if") d = Some i ->
+        (sem (S m) x i -> forall t, dget (kw "then") d = Some t -> sem (S m) x t) /\
+        (~ sem (S m) x i -> forall e, dget (kw "else") d = Some e -> sem (S m) x e))).
+  cbn [sem].
+  assert (ML : forall k l, In k LK -> dget k d = Some (JArr l) -> forall s', In s' l -> (sem (S m) x s' <-> sem m x s')).
+  { intros k l I G s' Hs. destruct (frag_list m d F k _ G I) as (l' & E & Fl). inversion E; subst. apply IH. auto. }
+  assert (MU : forall k v, In k UK -> dget k d = Some v -> (sem (S m) x v <-> sem m x v)).
+  { intros k v I G. apply IH. exact (frag_single m d F k v G I). }
+  assert (IA : In (kw "allOf") LK) by (cbv; tauto). assert (IY : In (kw "anyOf") LK) by (cbv; tauto).
+  assert (IO : In (kw "oneOf") LK) by (cbv; tauto). assert (IN : In (kw "not") UK) by (cbv; tauto).
+  assert (II : In (kw "if") UK) by (cbv; tauto). assert (IT : In (kw "then") UK) by (cbv; tauto).
+  assert (IE : In (kw "else") UK) by (cbv; tauto).
+  split; intros (S1 & S2 & S3 & S4 & S5 & S6 & S7); (split; [exact S1|]); (split; [exact S2|]); repeat split.
+  - intros l G s' Hs. apply (ML _ l IA G s' Hs). exact (S3 l G s' Hs).
+  - intros l G. destruct (S4 l G) as (s' & Hs & V). exists s'. split; auto. apply (ML _ l IY G s' Hs). exact V.
+  - intros l G. apply (one_of_ext (sem (S m) x) (sem m x) l (ML _ l IO G)). exact (S5 l G).
+  - intros n G V. apply (S6 n G). apply (MU _ n IN G). exact V.
+  - intros V t Gt. apply (MU _ t IT Gt). apply (proj1 (S7 i H0)); [apply (MU _ i II H0); exact V|exact Gt].
+  - intros V e Ge. apply (MU _ e IE Ge). apply (proj2 (S7 i H0)); [intros V'; apply V; apply (MU _ i II H0); exact V'|exact Ge].
+  - intros l G s' Hs. apply (ML _ l IA G s' Hs). exact (S3 l G s' Hs).
+  - intros l G. destruct (S4 l G) as (s' & Hs & V). exists s'. split; auto. apply (ML _ l IY G s' Hs). exact V.
+  - intros l G. apply (one_of_ext (sem (S m) x) (sem m x) l (ML _ l IO G)). exact (S5 l G).
+  - intros n G V. apply (S6 n G). apply (MU _ n IN G). exact V.
+  - intros V t Gt. apply (MU _ t IT Gt). apply (proj1 (S7 i H0)); [apply (MU _ i II H0); exact V|exact Gt].
+  - intros V e Ge. apply (MU _ e IE Ge). apply (proj2 (S7 i H0)); [intros V'; apply V; apply (MU _ i II H0); exact V'|exact Ge].
+Qed.
 
 (* ---------- dictionaries ---------- *)
 Lemma dget_ddel_ne k c d : k <> c -> dget c (ddel k d) = dget c d.
@@ -206,86 +189,555 @@ Proof.
   destruct (str_eqb k' k) eqn:E; [eauto|]. intros [->|H]; [rewrite str_eqb_refl in E; discriminate|auto].
 Qed.
 
+
+(* ---------- the simplifications before the combinators ---------- *)
+(* [equiv m d m' d']: d' is a dict of the fragment (depth m') that accepts what d (depth m) accepts *)
+Definition equiv (m : nat) (d : dict) (m' : nat) (d' : dict) : Prop :=
+  frag (S m') (JObj d') /\ forall x, sem (S m') x (JObj d') <-> sem (S m) x (JObj d).
+
+Lemma equiv_refl m d : frag (S m) (JObj d) -> equiv m d m d.
+Proof. intros F. split; [exact F|tauto]. Qed.
+
+Lemma equiv_trans m1 d1 m2 d2 m3 d3 : equiv m1 d1 m2 d2 -> equiv m2 d2 m3 d3 -> equiv m1 d1 m3 d3.
+Proof. intros [F1 E1] [F2 E2]. split; [exact F2|]. intros x. rewrite (E2 x). apply E1. Qed.
+
+Lemma kvalid_enum_single c x : kvalid (kw "enum") (JArr [c]) x <-> json_eqb x c = true.
+Proof.
+  kvat. split.
+  - intros (l & E & M). inversion E; subst. cbn [existsb] in M. rewrite orb_false_r in M. exact M.
+  - intros H. exists [c]. split; [reflexivity|]. cbn [existsb]. rewrite H. reflexivity.
+Qed.
+
+(* const: folded into enum *)
+Lemma const_equiv m d0 : frag (S m) (JObj d0) ->
+  exists dc, simplify_const d0 = Ok dc /\ dget (kw "const") dc = None /\ equiv m d0 m dc /\
+             (forall k, k <> kw "const" -> k <> kw "enum" -> dget k dc = dget k d0).
+Proof.
+  intros F. unfold simplify_const.
+  destruct (dget (kw "const") d0) as [c|] eqn:Gc.
+  2:{ exists d0. split; [reflexivity|]. split; [exact Gc|]. split; [apply equiv_refl; exact F|auto]. }
+  pose proof (frag_const m d0 F c Gc) as Sc.
+  set (d1 := ddel (kw "const") d0).
+  assert (G1 : forall k, k <> kw "const" -> dget k d1 = dget k d0) by (intros k N; apply dget_ddel_ne; auto).
+  assert (G1c : dget (kw "const") d1 = None) by apply dget_ddel_same.
+  assert (N1 : NoDup (map fst d1)) by (apply ddel_nodup; exact (frag_nodup m d0 F)).
+  assert (NEc : kw "enum" <> kw "const") by (intros X; cbv in X; discriminate X).
+  (* the new enum value and what it means *)
+  assert (EV : exists lv, (match dget (kw "enum") d1 with
+                           | Some (JArr l) => if hashable_all l && is_scalar c then Ok (dset (kw "enum") (JArr (einter l [c])) d1) else nerr
+                           | Some _ => PyErr ETypeError
+                           | None => Ok (dset (kw "enum") (JArr [c]) d1)
+                           end) = Ok (dset (kw "enum") (JArr lv) d1) /\ hashable_all lv = true /\
+                forall x, kvalid (kw "enum") (JArr lv) x <->
+                          (json_eqb x c = true /\ forall v, dget (kw "enum") d0 = Some v -> kvalid (kw "enum") v x)).
+  { rewrite (G1 (kw "enum") NEc). destruct (dget (kw "enum") d0) as [v|] eqn:Ge.
+    - destruct (frag_scalar m d0 F _ v Ge ltac:(cbv; tauto)) as [W _]. unfold wtv in W.
+      change (iskw (kw "enum") "type") with false in W. change (iskw (kw "enum") "enum") with true in W. cbv iota in W.
+      destruct W as (l & -> & Hl). rewrite Hl, Sc. cbn [andb].
+      assert (Hc : hashable_all [c] = true) by (cbn; rewrite Sc; reflexivity).
+      exists (einter l [c]). split; [reflexivity|]. split; [apply einter_hashable; auto|].
+      intros x. rewrite (proj2 (enum_merge l [c] x Hl Hc)), kvalid_enum_single. split.
+      + intros [A B]. split; [exact B|]. intros v E. inversion E; subst. exact A.
+      + intros [A B]. split; [apply B; reflexivity|exact A].
+    - exists [c]. split; [reflexivity|]. split; [cbn; rewrite Sc; reflexivity|].
+      intros x. rewrite kvalid_enum_single. split; [intros H; split; [exact H|intros v E; discriminate E]|tauto]. }
+  destruct EV as (lv & EQ & Hlv & Sem). rewrite EQ. clear EQ.
+  set (dc := dset (kw "enum") (JArr lv) d1).
+  assert (Gd : forall k, k <> kw "const" -> k <> kw "enum" -> dget k dc = dget k d0).
+  { intros k N1' N2. unfold dc. rewrite dget_dset_other by auto. apply G1. exact N1'. }
+  assert (Gde : dget (kw "enum") dc = Some (JArr lv)) by apply dget_dset_same.
+  assert (Gdc : dget (kw "const") dc = None) by (unfold dc; rewrite dget_dset_other by exact NEc; exact G1c).
+  exists dc. split; [reflexivity|]. split; [exact Gdc|]. split; [|exact Gd].
+  assert (Fc : frag (S m) (JObj dc)).
+  { split; [apply dset_nodup; exact N1|]. intros k v G.
+    destruct (list_eq_dec Nat.eq_dec k (kw "enum")) as [->|Ne].
+    - rewrite Gde in G. inversion G; subst. change (smem (kw "enum") SK) with true. cbv iota. split.
+      + exists lv. auto.
+      + intros X. cbv in X. discriminate X.
+    - destruct (list_eq_dec Nat.eq_dec k (kw "const")) as [->|Nc]; [congruence|].
+      rewrite (Gd k Nc Ne) in G. exact (proj2 F k v G). }
+  split; [exact Fc|]. intros x. cbn [sem].
+  assert (NK : forall s, kw s <> kw "const" -> kw s <> kw "enum" -> dget (kw s) dc = dget (kw s) d0) by (intros; apply Gd; auto).
+  rewrite (NK "allOf"%string), (NK "anyOf"%string), (NK "oneOf"%string), (NK "not"%string), (NK "if"%string), (NK "then"%string), (NK "else"%string)
+    by (intros X; cbv in X; discriminate X).
+  rewrite Gdc, Gc. split.
+  - intros (S1 & _ & Rest). split; [|split; [|exact Rest]].
+    + intros k v G I. destruct (list_eq_dec Nat.eq_dec k (kw "enum")) as [->|Ne].
+      * apply (proj2 (proj1 (Sem x) (S1 _ _ Gde ltac:(cbv; tauto)))). exact G.
+      * apply S1; auto. rewrite Gd; auto. intros ->. cbv in I. intuition discriminate.
+    + intros c' E. inversion E; subst. exact (proj1 (proj1 (Sem x) (S1 _ _ Gde ltac:(cbv; tauto)))).
+  - intros (S1 & S2 & Rest). split; [|split; [intros c' E; discriminate E|exact Rest]].
+    intros k v G I. destruct (list_eq_dec Nat.eq_dec k (kw "enum")) as [->|Ne].
+    + rewrite Gde in G. inversion G; subst. apply Sem. split; [apply S2; reflexivity|]. intros v E. apply S1; auto.
+    + apply S1; auto. rewrite <- Gd; auto. intros ->. cbv in I. intuition discriminate.
+Qed.
+
+(* ---------- the meaning is decidable: the executable evaluator semb ---------- *)
+Lemma kvalidb_spec k v x : kvalidb k v x = true <-> kvalid k v x.
+Proof.
+  unfold kvalidb, kvalid.
+  destruct (iskw k "minimum").
+  { destruct v, x; try (split; [intros _ ? ? E1 E2; discriminate|reflexivity]).
+    rewrite Z.leb_le. split; [intros H ? ? E1 E2; inversion E1; inversion E2; subst; auto|intros H; apply H; reflexivity]. }
+  destruct (iskw k "maximum").
+  { destruct v, x; try (split; [intros _ ? ? E1 E2; discriminate|reflexivity]).
+    rewrite Z.leb_le. split; [intros H ? ? E1 E2; inversion E1; inversion E2; subst; auto|intros H; apply H; reflexivity]. }
+  destruct (iskw k "exclusiveMinimum").
+  { destruct v, x; try (split; [intros _ ? ? E1 E2; discriminate|reflexivity]).
+    rewrite Z.ltb_lt. split; [intros H ? ? E1 E2; inversion E1; inversion E2; subst; auto|intros H; apply H; reflexivity]. }
+  destruct (iskw k "exclusiveMaximum").
+  { destruct v, x; try (split; [intros _ ? ? E1 E2; discriminate|reflexivity]).
+    rewrite Z.ltb_lt. split; [intros H ? ? E1 E2; inversion E1; inversion E2; subst; auto|intros H; apply H; reflexivity]. }
+  destruct (iskw k "minLength").
+  { destruct v, x; try (split; [intros _ ? ? E1 E2; discriminate|reflexivity]).
+    rewrite Z.leb_le. split; [intros H ? ? E1 E2; inversion E1; inversion E2; subst; auto|intros H; apply H; reflexivity]. }
+  destruct (iskw k "maxLength").
+  { destruct v, x; try (split; [intros _ ? ? E1 E2; discriminate|reflexivity]).
+    rewrite Z.leb_le. split; [intros H ? ? E1 E2; inversion E1; inversion E2; subst; auto|intros H; apply H; reflexivity]. }
+  destruct (iskw k "minItems").
+  { destruct v, x; try (split; [intros _ ? ? E1 E2; discriminate|reflexivity]).
+    rewrite Z.leb_le. split; [intros H ? ? E1 E2; inversion E1; inversion E2; subst; auto|intros H; apply H; reflexivity]. }
+  destruct (iskw k "maxItems").
+  { destruct v, x; try (split; [intros _ ? ? E1 E2; discriminate|reflexivity]).
+    rewrite Z.leb_le. split; [intros H ? ? E1 E2; inversion E1; inversion E2; subst; auto|intros H; apply H; reflexivity]. }
+  destruct (iskw k "type").
+  { rewrite existsb_exists. split.
+    - intros (t & Ht & E). apply str_eqb_true in E. subst. exact Ht.
+    - intros H. exists (jtype x). split; [exact H|apply str_eqb_true; reflexivity]. }
+  destruct (iskw k "enum").
+  { destruct v; try (split; [discriminate|intros (l0 & E & _); discriminate]).
+    split; [intros H; eauto|intros (l0 & E & M); inversion E; subst; exact M]. }
+  destruct (iskw k "NOT_enum").
+  { destruct v; try (split; [intros _ ? E; discriminate|reflexivity]).
+    rewrite negb_true_iff. split; [intros H l0 E; inversion E; subst; exact H|intros H; apply H; reflexivity]. }
+  tauto.
+Qed.
+
+
+
+
+Lemma filter_one {A} (p : A -> bool) : forall l,
+  List.length (filter p l) = 1 <->
+  exists i s, nth_error l i = Some s /\ p s = true /\ forall j s', j <> i -> nth_error l j = Some s' -> p s' = false.
+Proof.
+  induction l as [|a l IH]; cbn [filter].
+  - split; [discriminate|]. intros (i & s & N & _). destruct i; discriminate.
+  - destruct (p a) eqn:Pa; cbn [List.length].
+    + split.
+      * intros H. assert (Z : List.length (filter p l) = 0) by lia.
+        exists 0, a. split; [reflexivity|]. split; [exact Pa|]. intros j s' Nj Ns. destruct j as [|j]; [congruence|]. cbn in Ns.
+        destruct (p s') eqn:Ps; auto. exfalso.
+        assert (In s' (filter p l)) by (apply filter_In; split; [eapply nth_error_In; eauto|exact Ps]).
+        destruct (filter p l); [contradiction|discriminate].
+      * intros (i & s & N & Ps & O). destruct i as [|i].
+        -- f_equal. destruct (filter p l) as [|b r] eqn:E; [reflexivity|exfalso].
+           assert (Hb : In b (filter p l)) by (rewrite E; left; reflexivity). apply filter_In in Hb. destruct Hb as [Hb Pb].
+           apply In_nth_error in Hb. destruct Hb as [j Hj]. specialize (O (S j) b ltac:(lia) Hj). congruence.
+        -- exfalso. specialize (O 0 a ltac:(lia) eq_refl). congruence.
+    + rewrite IH. split.
+      * intros (i & s & N & Ps & O). exists (S i), s. split; [exact N|]. split; [exact Ps|].
+        intros j s' Nj Ns. destruct j as [|j]; [cbn in Ns; inversion Ns; subst; exact Pa|]. apply (O j s'); [lia|exact Ns].
+      * intros (i & s & N & Ps & O). destruct i as [|i]; [cbn in N; inversion N; subst; congruence|].
+        exists i, s. split; [exact N|]. split; [exact Ps|]. intros j s' Nj Ns. apply (O (S j) s'); [lia|exact Ns].
+Qed.
+
+Theorem semb_spec x : forall f s, frag f s -> (semb f x s = true <-> sem f x s).
+Proof.
+  induction f as [|f IH]; intros s Fs; [destruct Fs|].
+  destruct s as [|b|z|s0|l0|d]; try (exfalso; exact Fs).
+  - cbn [semb sem]. tauto.
+  - pose proof (frag_nodup f d Fs) as ND. cbn [semb sem].
+    assert (ML : forall k l, In k LK -> dget k d = Some (JArr l) -> forall s', In s' l -> (semb f x s' = true <-> sem f x s')).
+    { intros k l I G s' Hs. destruct (frag_list f d Fs k _ G I) as (l' & E & Fl). inversion E; subst. apply IH. auto. }
+    assert (MU : forall k v, In k UK -> dget k d = Some v -> (semb f x v = true <-> sem f x v)).
+    { intros k v I G. apply IH. exact (frag_single f d Fs k v G I). }
+    assert (LA : forall k v, In k LK -> dget k d = Some v -> exists l, v = JArr l).
+    { intros k v I G. destruct (frag_list f d Fs k v G I) as (l & -> & _). eauto. }
+    assert (IA : In (kw "allOf") LK) by (cbv; tauto). assert (IY : In (kw "anyOf") LK) by (cbv; tauto).
+    assert (IO : In (kw "oneOf") LK) by (cbv; tauto). assert (IN : In (kw "not") UK) by (cbv; tauto).
+    assert (II : In (kw "if") UK) by (cbv; tauto). assert (IT : In (kw "then") UK) by (cbv; tauto).
+    assert (IE : In (kw "else") UK) by (cbv; tauto).
+    rewrite !andb_true_iff.
+    assert (E1 : forallb (fun '(k, v) => if smem k SK then kvalidb k v x else true) d = true <->
+                 (forall k v, dget k d = Some v -> In k SK -> kvalid k v x)).
+    { rewrite forallb_forall. split.
+      - intros H k v G I. specialize (H (k, v) (proj2 (in_dget d ND k v) G)). cbv beta iota in H.
+        rewrite (proj2 (smem_In k SK) I) in H. apply kvalidb_spec. exact H.
+      - intros H [k v] Hin. destruct (smem k SK) eqn:M; auto. apply kvalidb_spec. apply H; [apply (in_dget d ND); exact Hin|apply smem_In; exact M]. }
+    assert (E2 : match dget (kw "const") d with Some c => json_eqb x c | None => true end = true <->
+                 (forall c, dget (kw "const") d = Some c -> json_eqb x c = true)).
+    { destruct (dget (kw "const") d) as [c|].
+      - split; [intros H c' E; inversion E; subst; exact H|intros H; apply H; reflexivity].
+      - split; [intros _ c E; discriminate E|reflexivity]. }
+    assert (E3 : match dget (kw "allOf") d with Some (JArr l) => forallb (semb f x) l | _ => true end = true <->
+                 (forall l, dget (kw "allOf") d = Some (JArr l) -> forall s', In s' l -> sem f x s')).
+    { destruct (dget (kw "allOf") d) as [v|] eqn:G; [|split; [intros _ l E; discriminate|reflexivity]].
+      destruct (LA _ v IA G) as [l ->]. rewrite forallb_forall. split.
+      - intros H l' E s' Hs. inversion E; subst. apply (ML _ l' IA G); auto.
+      - intros H s' Hs. apply (ML _ l IA G s' Hs). exact (H l eq_refl s' Hs). }
+    assert (E4 : match dget (kw "anyOf") d with Some (JArr l) => existsb (semb f x) l | _ => true end = true <->
+                 (forall l, dget (kw "anyOf") d = Some (JArr l) -> exists s', In s' l /\ sem f x s')).
+    { destruct (dget (kw "anyOf") d) as [v|] eqn:G; [|split; [intros _ l E; discriminate|reflexivity]].
+      destruct (LA _ v IY G) as [l ->]. rewrite existsb_exists. split.
+      - intros (s' & Hs & V) l' E. inversion E; subst. exists s'. split; auto. apply (ML _ l' IY G); auto.
+      - intros H. destruct (H l eq_refl) as (s' & Hs & V). exists s'. split; auto. apply (ML _ l IY G); auto. }
+    assert (E5 : match dget (kw "oneOf") d with Some (JArr l) => Nat.eqb (List.length (filter (semb f x) l)) 1 | _ => true end = true <->
+                 (forall l, dget (kw "oneOf") d = Some (JArr l) -> one_of (sem f x) l)).
+    { destruct (dget (kw "oneOf") d) as [v|] eqn:G; [|split; [intros _ l E; discriminate|reflexivity]].
+      destruct (LA _ v IO G) as [l ->]. rewrite Nat.eqb_eq, filter_one.
+      assert (Q : one_of (fun s => semb f x s = true) l <-> one_of (sem f x) l) by (apply one_of_ext; intros s Hs; apply (ML _ l IO G); auto).
+      unfold one_of in Q at 1. split.
+      - intros (i & s & N & Ps & O) l' E. inversion E; subst. apply Q. exists i, s. split; [exact N|]. split; [exact Ps|].
+        intros j s' Nj Ns. rewrite (O j s' Nj Ns). discriminate.
+      - intros H. destruct (proj2 Q (H l eq_refl)) as (i & s & N & Ps & O). exists i, s. split; [exact N|]. split; [exact Ps|].
+        intros j s' Nj Ns. destruct (semb f x s') eqn:B; auto. exfalso. exact (O j s' Nj Ns B). }
+    assert (E6 : match dget (kw "not") d with Some n => negb (semb f x n) | None => true end = true <->
+                 (forall n, dget (kw "not") d = Some n -> ~ sem f x n)).
+    { destruct (dget (kw "not") d) as [v|] eqn:G; [|split; [intros _ n E; discriminate|reflexivity]].
+      rewrite negb_true_iff. split.
+      - intros H n E V. inversion E; subst. apply (MU _ n IN G) in V. congruence.
+      - intros H. destruct (semb f x v) eqn:B; auto. exfalso. apply (H v eq_refl). apply (MU _ v IN G); auto. }
+    assert (E7 : match dget (kw "if") d with
+                 | Some i => if semb f x i
+                             then match dget (kw "then") d with Some t => semb f x t | None => true end
+                             else match dget (kw "else") d with Some e => semb f x e | None => true end
+                 | None => true end = true <->
+                 (forall i, dget (kw "if") d = Some i ->
+                    (sem f x i -> forall t, dget (kw "then") d = Some t -> sem f x t) /\
+                    (~ sem f x i -> forall e, dget (kw "else") d = Some e -> sem f x e))).
+    { destruct (dget (kw "if") d) as [i|] eqn:G; [|split; [intros _ i E; discriminate|reflexivity]].
+      pose proof (MU _ i II G) as Mi. destruct (semb f x i) eqn:Bi.
+      - assert (Vi : sem f x i) by (apply Mi; reflexivity). split.
+        + intros H i' E. inversion E; subst. split; [|intros N; contradiction].
+          intros _ t Gt. rewrite Gt in H. apply (MU _ t IT Gt). exact H.
+        + intros H. destruct (dget (kw "then") d) as [t|] eqn:Gt; [|reflexivity].
+          apply (MU _ t IT Gt). exact (proj1 (H i eq_refl) Vi t eq_refl).
+      - assert (Vi : ~ sem f x i) by (intros V; apply Mi in V; congruence). split.
+        + intros H i' E. inversion E; subst. split; [intros V; contradiction|].
+          intros _ e Ge. rewrite Ge in H. apply (MU _ e IE Ge). exact H.
+        + intros H. destruct (dget (kw "else") d) as [e|] eqn:Ge; [|reflexivity].
+          apply (MU _ e IE Ge). exact (proj2 (H i eq_refl) Vi e eq_refl). }
+    rewrite E1, E2, E3, E4, E5, E6, E7. tauto.
+Qed.
+
+Lemma sem_dec x m s : frag m s -> sem m x s \/ ~ sem m x s.
+Proof.
+  intros F. destruct (semb m x s) eqn:B; [left; apply (semb_spec x m s F); exact B|].
+  right. intros V. apply (semb_spec x m s F) in V. congruence.
+Qed.
+
+(* ---------- meaning of the one-key dicts that the simplifications build ---------- *)
+Ltac dget1 :=
+  repeat match goal with
+         | |- context [dget (kw ?a) [(kw ?b, ?v)]] =>
+             let r := eval vm_compute in (str_eqb (kw b) (kw a)) in
+             change (dget (kw a) [(kw b, v)]) with (if r then Some v else @None json); cbv iota
+         end.
+
+Lemma scalar_vacuous b v x : ~ In (kw b) SK -> forall k v0, dget k [(kw b, v)] = Some v0 -> In k SK -> kvalid k v0 x.
+Proof.
+  intros N k v0 G I. exfalso. cbn [dget] in G. destruct (str_eqb (kw b) k) eqn:E; [|discriminate].
+  apply str_eqb_true in E. subst k. exact (N I).
+Qed.
+
+Lemma sem_any1 k x l : sem (S k) x (obj1 "anyOf" (JArr l)) <-> exists s, In s l /\ sem k x s.
+Proof.
+  unfold obj1. cbn [sem]. dget1. split.
+  - intros (_ & _ & _ & A & _). apply A. reflexivity.
+  - intros H. split; [apply scalar_vacuous; cbv; intuition discriminate|]. split; [intros c E; discriminate E|].
+    split; [intros l0 E; discriminate E|]. split; [intros l0 E; inversion E; subst; exact H|].
+    split; [intros l0 E; discriminate E|]. split; [intros n E; discriminate E|intros i E; discriminate E].
+Qed.
+
+Lemma sem_all1 k x l : sem (S k) x (obj1 "allOf" (JArr l)) <-> forall s, In s l -> sem k x s.
+Proof.
+  unfold obj1. cbn [sem]. dget1. split.
+  - intros (_ & _ & A & _). apply A. reflexivity.
+  - intros H. split; [apply scalar_vacuous; cbv; intuition discriminate|]. split; [intros c E; discriminate E|].
+    split; [intros l0 E; inversion E; subst; exact H|]. split; [intros l0 E; discriminate E|].
+    split; [intros l0 E; discriminate E|]. split; [intros n E; discriminate E|intros i E; discriminate E].
+Qed.
+
+Lemma sem_not1 k x a : sem (S k) x (obj1 "not" a) <-> ~ sem k x a.
+Proof.
+  unfold obj1. cbn [sem]. dget1. split.
+  - intros (_ & _ & _ & _ & _ & A & _). apply A. reflexivity.
+  - intros H. split; [apply scalar_vacuous; cbv; intuition discriminate|]. split; [intros c E; discriminate E|].
+    split; [intros l0 E; discriminate E|]. split; [intros l0 E; discriminate E|].
+    split; [intros l0 E; discriminate E|]. split; [intros n E; inversion E; subst; exact H|intros i E; discriminate E].
+Qed.
+
+Lemma frag_list1 k (K : str) l : In K LK -> (forall s, In s l -> frag k s) -> frag (S k) (JObj [(K, JArr l)]).
+Proof.
+  intros I Fl. split; [constructor; [intros []|constructor]|]. intros key v G. cbn [dget] in G.
+  destruct (str_eqb K key) eqn:E; [|discriminate]. apply str_eqb_true in E. subst key. inversion G; subst v.
+  assert (E1 : smem K SK = false) by (cbv in I; repeat (destruct I as [<-|I]; [reflexivity|]); destruct I).
+  rewrite E1, (proj2 (smem_In _ LK) I). exists l. auto.
+Qed.
+
+Lemma frag_not1 k a : frag k a -> frag (S k) (obj1 "not" a).
+Proof.
+  intros Fa. split; [constructor; [intros []|constructor]|]. intros key v G. cbn [dget] in G.
+  destruct (str_eqb (kw "not") key) eqn:E; [|discriminate]. apply str_eqb_true in E. subst key. inversion G; subst v.
+  change (smem (kw "not") SK) with false. change (smem (kw "not") LK) with false. change (smem (kw "not") UK) with true. exact Fa.
+Qed.
+
+Lemma frag_le : forall k m s, m <= k -> frag m s -> frag k s.
+Proof. induction 1; auto. intros F. apply frag_mono. auto. Qed.
+
+Lemma sem_le x : forall k m s, m <= k -> frag m s -> (sem k x s <-> sem m x s).
+Proof.
+  induction 1 as [|k L IH]; [tauto|]. intros F. rewrite <- (IH F). apply sem_mono. eapply frag_le; eauto.
+Qed.
+
+Lemma frag_empty m : frag (S m) (JObj []).
+Proof. split; [constructor|]. intros k v G. discriminate G. Qed.
+
+Lemma sem_empty m x : sem (S m) x (JObj []).
+Proof. cbn [sem]. repeat split; intros; discriminate. Qed.
+
+(* ---------- if / then / else ---------- *)
+Definition is3 (k : str) : bool := str_eqb k (kw "if") || str_eqb k (kw "then") || str_eqb k (kw "else").
+
+Lemma side3_get d k :
+  dget k (ddel (kw "else") (ddel (kw "then") (ddel (kw "if") d))) = if is3 k then None else dget k d.
+Proof.
+  unfold is3.
+  destruct (str_eqb k (kw "if")) eqn:E1.
+  { apply str_eqb_eq in E1. subst. cbn [orb]. rewrite !dget_ddel_ne by (intros X; cbv in X; discriminate X). apply dget_ddel_same. }
+  destruct (str_eqb k (kw "then")) eqn:E2.
+  { apply str_eqb_eq in E2. subst. cbn [orb]. rewrite dget_ddel_ne by (intros X; cbv in X; discriminate X). apply dget_ddel_same. }
+  destruct (str_eqb k (kw "else")) eqn:E3.
+  { apply str_eqb_eq in E3. subst. cbn [orb]. apply dget_ddel_same. }
+  cbn [orb]. rewrite !dget_ddel_ne; auto; intros X; subst k; rewrite str_eqb_refl in *; discriminate.
+Qed.
+
+(* everything a dict says except its conditional *)
+Definition sem_noite (m : nat) (x : json) (d : dict) : Prop :=
+  (forall k v, dget k d = Some v -> In k SK -> kvalid k v x) /\
+  (forall c, dget (kw "const") d = Some c -> json_eqb x c = true) /\
+  (forall l, dget (kw "allOf") d = Some (JArr l) -> forall s', In s' l -> sem m x s') /\
+  (forall l, dget (kw "anyOf") d = Some (JArr l) -> exists s', In s' l /\ sem m x s') /\
+  (forall l, dget (kw "oneOf") d = Some (JArr l) -> one_of (sem m x) l) /\
+  (forall n, dget (kw "not") d = Some n -> ~ sem m x n).
+
+Lemma sem_split m x d : sem (S m) x (JObj d) <->
+  sem_noite m x d /\
+  (forall i, dget (kw "if") d = Some i ->
+     (sem m x i -> forall t, dget (kw "then") d = Some t -> sem m x t) /\
+     (~ sem m x i -> forall e, dget (kw "else") d = Some e -> sem m x e)).
+Proof. unfold sem_noite. cbn [sem]. tauto. Qed.
+
+Lemma is3_SK k : In k SK -> is3 k = false.
+Proof. intros H. apply SK_enum in H. repeat (destruct H as [->|H]; [reflexivity|]). subst. reflexivity. Qed.
+
+Section Side3.
+Variable m : nat.
+Variable d : dict.
+Hypothesis F : frag (S m) (JObj d).
+Let side := ddel (kw "else") (ddel (kw "then") (ddel (kw "if") d)).
+
+Lemma side3_frag : frag (S m) (JObj side).
+Proof.
+  split; [unfold side; repeat apply ddel_nodup; exact (frag_nodup m d F)|].
+  intros k v G. unfold side in G. rewrite side3_get in G. destruct (is3 k); [discriminate|]. exact (proj2 F k v G).
+Qed.
+
+Lemma side3_sem x : sem (S m) x (JObj side) <-> sem_noite m x d.
+Proof.
+  rewrite sem_split. unfold sem_noite, side. rewrite !side3_get.
+  change (is3 (kw "const")) with false. change (is3 (kw "allOf")) with false. change (is3 (kw "anyOf")) with false.
+  change (is3 (kw "oneOf")) with false. change (is3 (kw "not")) with false. change (is3 (kw "if")) with true. cbv iota.
+  split.
+  - intros [(S1 & Rest) _]. split; [|exact Rest]. intros k v G I. apply S1; auto. rewrite side3_get, (is3_SK k I). exact G.
+  - intros (S1 & Rest). split; [split; [|exact Rest]|intros i E; discriminate E].
+    intros k v G I. rewrite side3_get, (is3_SK k I) in G. apply S1; auto.
+Qed.
+End Side3.
+
+Lemma sem_pair k x a b : (forall s, In s [a; b] -> sem k x s) <-> sem k x a /\ sem k x b.
+Proof. split; [intros H; split; apply H; cbn; tauto|intros [A B] s [<-|[<-|[]]]; assumption]. Qed.
+
+Lemma ex_pair k x a b : (exists s, In s [a; b] /\ sem k x s) <-> sem k x a \/ sem k x b.
+Proof.
+  split; [intros (s & [<-|[<-|[]]] & V); tauto|intros [V|V]; [exists a|exists b]; cbn; tauto].
+Qed.
+
+Lemma ite_equiv SV m d : frag (S m) (JObj d) -> fix_lone_if SV = true ->
+  exists m', equiv m d m' (simplify_ite SV d) /\
+             dget (kw "if") (simplify_ite SV d) = None /\ dget (kw "then") (simplify_ite SV d) = None /\
+             dget (kw "else") (simplify_ite SV d) = None /\
+             (dget (kw "const") d = None -> dget (kw "const") (simplify_ite SV d) = None).
+Proof.
+  intros F FL. unfold simplify_ite, dhas.
+  set (side := ddel (kw "else") (ddel (kw "then") (ddel (kw "if") d))).
+  assert (SideOK : equiv m d m side -> exists m', equiv m d m' side /\ dget (kw "if") side = None /\ dget (kw "then") side = None /\
+            dget (kw "else") side = None /\ (dget (kw "const") d = None -> dget (kw "const") side = None)).
+  { intros E. exists m. split; [exact E|]. unfold side. rewrite !side3_get. repeat split; auto. }
+  assert (SideEq : (forall x, (forall i, dget (kw "if") d = Some i ->
+                       (sem m x i -> forall t, dget (kw "then") d = Some t -> sem m x t) /\
+                       (~ sem m x i -> forall e, dget (kw "else") d = Some e -> sem m x e))) -> equiv m d m side).
+  { intros V. split; [apply side3_frag; exact F|]. intros x. unfold side. rewrite (side3_sem m d x), sem_split. split; [intros H; split; auto|tauto]. }
+  destruct (dget (kw "if") d) as [i|] eqn:Gi.
+  - destruct (dget (kw "then") d) as [t|] eqn:Gt; [|destruct (dget (kw "else") d) as [e|] eqn:Ge].
+    3:{ (* a lone if *) cbn [orb negb]. rewrite FL. apply SideOK. apply SideEq. intros x i0 E. split; intros _ ? X; discriminate X. }
+    all: cbn [orb negb].
+    + (* if / then [/ else] *)
+      set (e' := match dget (kw "else") d with Some x => x | None => JObj [] end).
+      pose proof (frag_single m d F _ i Gi ltac:(cbv; tauto)) as Fi.
+      pose proof (frag_single m d F _ t Gt ltac:(cbv; tauto)) as Ft.
+      assert (Fe : frag (S m) e').
+      { unfold e'. destruct (dget (kw "else") d) as [e|] eqn:Ge; [|apply frag_empty].
+        apply frag_mono. exact (frag_single m d F _ e Ge ltac:(cbv; tauto)). }
+      exists (S (S (S m))). split; [split|].
+      * apply frag_list1; [cbv; tauto|]. intros s [<-|[<-|[]]].
+        -- apply (frag_le _ (S m)); [lia|apply side3_frag; exact F].
+        -- apply frag_list1; [cbv; tauto|]. intros s [<-|[<-|[]]].
+           ++ apply frag_list1; [cbv; tauto|]. intros s [<-|[<-|[]]]; [apply frag_mono; exact Fi|apply frag_mono; exact Ft].
+           ++ apply frag_list1; [cbv; tauto|]. intros s [<-|[<-|[]]]; [apply frag_not1; exact Fi|exact Fe].
+      * intros x. change (JObj [(kw "allOf", JArr [JObj side; obj1 "anyOf" (JArr [all_of2 i t; all_of2 (obj1 "not" i) e'])])])
+          with (obj1 "allOf" (JArr [JObj side; obj1 "anyOf" (JArr [all_of2 i t; all_of2 (obj1 "not" i) e'])])).
+        rewrite sem_all1, sem_pair, sem_any1, ex_pair. unfold all_of2. rewrite !sem_all1, !sem_pair, sem_not1.
+        rewrite (sem_le x (S (S (S m))) (S m) (JObj side)) by (try lia; apply side3_frag; exact F).
+        unfold side. rewrite (side3_sem m d x), (sem_split m x d), Gi, Gt.
+        rewrite (sem_mono x m i Fi), (sem_mono x m t Ft).
+        assert (Ee : sem (S m) x e' <-> (forall e, dget (kw "else") d = Some e -> sem m x e)).
+        { unfold e'. destruct (dget (kw "else") d) as [e|] eqn:Ge.
+          - rewrite (sem_mono x m e (frag_single m d F _ e Ge ltac:(cbv; tauto))). split; [intros V e0 E; inversion E; subst; exact V|intros V; apply V; reflexivity].
+          - split; [intros _ e E; discriminate E|intros _; apply sem_empty]. }
+        rewrite Ee. destruct (sem_dec x m i Fi) as [Vi|Vi].
+        -- split.
+           ++ intros [N [[_ T]|[NV _]]]; [|contradiction]. split; [exact N|]. intros i0 E. inversion E; subst. split; [intros _ t0 E0; inversion E0; subst; exact T|intros X; contradiction].
+           ++ intros [N H]. split; [exact N|]. left. split; [exact Vi|]. exact (proj1 (H i eq_refl) Vi t eq_refl).
+        -- split.
+           ++ intros [N [[V _]|[_ E]]]; [contradiction|]. split; [exact N|]. intros i0 E0. inversion E0; subst. split; [intros X; contradiction|intros _; exact E].
+           ++ intros [N H]. split; [exact N|]. right. split; [exact Vi|]. exact (proj2 (H i eq_refl) Vi).
+      * cbn [dget]. repeat split; reflexivity.
+    + (* if / else *)
+      pose proof (frag_single m d F _ i Gi ltac:(cbv; tauto)) as Fi.
+      pose proof (frag_single m d F _ e Ge ltac:(cbv; tauto)) as Fe.
+      exists (S (S (S m))). split; [split|].
+      * apply frag_list1; [cbv; tauto|]. intros s [<-|[<-|[]]].
+        -- apply (frag_le _ (S m)); [lia|apply side3_frag; exact F].
+        -- apply frag_list1; [cbv; tauto|]. intros s [<-|[<-|[]]].
+           ++ apply frag_list1; [cbv; tauto|]. intros s [<-|[<-|[]]]; [apply frag_mono; exact Fi|apply frag_empty].
+           ++ apply frag_list1; [cbv; tauto|]. intros s [<-|[<-|[]]]; [apply frag_not1; exact Fi|apply frag_mono; exact Fe].
+      * intros x. change (JObj [(kw "allOf", JArr [JObj side; obj1 "anyOf" (JArr [all_of2 i (JObj []); all_of2 (obj1 "not" i) e])])])
+          with (obj1 "allOf" (JArr [JObj side; obj1 "anyOf" (JArr [all_of2 i (JObj []); all_of2 (obj1 "not" i) e])])).
+        rewrite sem_all1, sem_pair, sem_any1, ex_pair. unfold all_of2. rewrite !sem_all1, !sem_pair, sem_not1.
+        rewrite (sem_le x (S (S (S m))) (S m) (JObj side)) by (try lia; apply side3_frag; exact F).
+        unfold side. rewrite (side3_sem m d x), (sem_split m x d), Gi, Gt, Ge.
+        rewrite (sem_mono x m i Fi), (sem_mono x m e Fe).
+        pose proof (sem_empty m x) as Em. destruct (sem_dec x m i Fi) as [Vi|Vi].
+        -- split.
+           ++ intros [N _]. split; [exact N|]. intros i0 E. inversion E; subst. split; [intros _ t0 E0; discriminate E0|intros X; contradiction].
+           ++ intros [N H]. split; [exact N|]. left. auto.
+        -- split.
+           ++ intros [N [[V _]|[_ E]]]; [contradiction|]. split; [exact N|]. intros i0 E0. inversion E0; subst. split; [intros X; contradiction|intros _ e0 E1; inversion E1; subst; exact E].
+           ++ intros [N H]. split; [exact N|]. right. split; [exact Vi|]. exact (proj2 (H i eq_refl) Vi e eq_refl).
+      * cbn [dget]. repeat split; reflexivity.
+  - (* no if: then / else are ignored *)
+    destruct (dget (kw "then") d) as [t|] eqn:Gt; [|destruct (dget (kw "else") d) as [e|] eqn:Ge]; cbn [orb negb].
+    + apply SideOK. apply SideEq. intros x i E. discriminate E.
+    + apply SideOK. apply SideEq. intros x i E. discriminate E.
+    + exists m. split; [apply equiv_refl; exact F|]. auto.
+Qed.
+
+(* ---------- type: only respelled ---------- *)
+Lemma py_eqb_str s t : py_eqb (JStr s) (JStr t) = true -> s = t.
+Proof. unfold py_eqb. cbn. apply str_eqb_eq. Qed.
+
+Lemma type_equiv m d : frag (S m) (JObj d) ->
+  exists d3, simplify_type d = Ok d3 /\ equiv m d m d3 /\ (forall k, k <> kw "type" -> dget k d3 = dget k d).
+Proof.
+  intros F. unfold simplify_type.
+  destruct (dget (kw "type") d) as [t|] eqn:Gt.
+  2:{ exists d. split; [reflexivity|]. split; [apply equiv_refl; exact F|auto]. }
+  destruct (frag_scalar m d F _ t Gt ltac:(cbv; tauto)) as [W NI]. specialize (NI eq_refl).
+  unfold wtv in W. change (iskw (kw "type") "type") with true in W. cbv iota in W.
+  rewrite (strs_hashable _ W). cbn [negb].
+  set (s := pset (to_list t)).
+  assert (Ss : strs s) by (intros j Hj; apply W; apply pset_subset; exact Hj).
+  assert (Sin : forall u, In (JStr u) s <-> In (JStr u) (to_list t)) by (intros u; apply pset_strs_in; exact W).
+  assert (NoInt : pmem (jstr "integer") s = false).
+  { destruct (pmem (jstr "integer") s) eqn:M; auto. exfalso. apply pmem_spec in M. destruct M as (e & He & Ee).
+    destruct (Ss e He) as [u ->]. apply py_eqb_str in Ee. subst u. apply NI. apply Sin. exact He. }
+  assert (Fin : forall (T : list json), (forall u, In (JStr u) T <-> In (JStr u) (to_list t)) -> strs T ->
+            equiv m d m (dset (kw "type") (JArr T) d) /\
+            (forall k, k <> kw "type" -> dget k (dset (kw "type") (JArr T) d) = dget k d)).
+  { intros T HT ST.
+    assert (O : forall k, k <> kw "type" -> dget k (dset (kw "type") (JArr T) d) = dget k d)
+      by (intros k N; apply dget_dset_other; auto).
+    assert (GT : dget (kw "type") (dset (kw "type") (JArr T) d) = Some (JArr T)) by apply dget_dset_same.
+    assert (KV : forall x, kvalid (kw "type") (JArr T) x <-> kvalid (kw "type") t x).
+    { intros x. kvat. rewrite (type_names_to_list t), !names_in. apply HT. }
+    split; [|exact O]. split.
+    - split; [apply dset_nodup; exact (frag_nodup m d F)|]. intros k v G.
+      destruct (list_eq_dec Nat.eq_dec k (kw "type")) as [->|Nk].
+      + rewrite GT in G. inversion G; subst. change (smem (kw "type") SK) with true. cbv iota. split.
+        * unfold wtv. change (iskw (kw "type") "type") with true. cbv iota. exact ST.
+        * intros _ Hin. cbn [to_list] in Hin. apply (HT (kw "integer")) in Hin. exact (NI Hin).
+      + rewrite (O k Nk) in G. exact (proj2 F k v G).
+    - intros x. rewrite !sem_split. unfold sem_noite.
+      assert (NK : forall s0, kw s0 <> kw "type" -> dget (kw s0) (dset (kw "type") (JArr T) d) = dget (kw s0) d) by (intros; apply O; auto).
+      rewrite (NK "const"%string), (NK "allOf"%string), (NK "anyOf"%string), (NK "oneOf"%string), (NK "not"%string),
+              (NK "if"%string), (NK "then"%string), (NK "else"%string) by (intros X; cbv in X; discriminate X).
+      split.
+      + intros [(S1 & Rest) R2]. split; [split; [|exact Rest]|exact R2].
+        intros k v G I. destruct (list_eq_dec Nat.eq_dec k (kw "type")) as [->|Nk].
+        * rewrite Gt in G. inversion G; subst. apply (proj1 (KV x)). apply S1; auto.
+        * apply S1; auto. rewrite O; auto.
+      + intros [(S1 & Rest) R2]. split; [split; [|exact Rest]|exact R2].
+        intros k v G I. destruct (list_eq_dec Nat.eq_dec k (kw "type")) as [->|Nk].
+        * rewrite GT in G. inversion G; subst. apply (proj2 (KV x)). apply S1; auto.
+        * apply S1; auto. rewrite <- O; auto. }
+  destruct (pmem (jstr "number") s) eqn:Mn.
+  - set (T := filter (fun y => negb (py_eqb y (jstr "integer"))) s).
+    destruct (Fin T) as [A1 A2].
+    + intros u. unfold T. rewrite filter_In, Sin. split; [tauto|]. intros H. split; auto.
+      apply negb_true_iff. destruct (py_eqb (JStr u) (jstr "integer")) eqn:E; auto. exfalso.
+      apply py_eqb_str in E. subst u. exact (NI H).
+    + intros j Hj. unfold T in Hj. apply filter_In in Hj. apply Ss. tauto.
+    + eexists. split; [reflexivity|]. auto.
+  - rewrite NoInt. destruct (Fin s Sin Ss) as [A1 A2]. eexists. split; [reflexivity|]. auto.
+Qed.
+
 Section ToDnf.
 Variable SV : svariant.
 Variable cfg : nconfig.
+Hypothesis FL : fix_lone_if SV = true.
 Hypothesis FM : full_merge cfg = true.
 (* none of the keywords of the fragment is configured to be discarded *)
 Hypothesis DF : forall k, In k (SK ++ CK) -> smem k (discard_fields cfg) = false.
 
-Lemma py_eqb_str s t : py_eqb (JStr s) (JStr t) = true -> s = t.
-Proof. unfold py_eqb. cbn. apply str_eqb_eq. Qed.
+Definition clean (d : dict) : Prop :=
+  dget (kw "const") d = None /\ dget (kw "if") d = None /\ dget (kw "then") d = None /\ dget (kw "else") d = None.
 
-(* the simplifications before the combinators leave a keyword set of the fragment alone, up to the spelling
-   of the type list *)
-Lemma simplify_frag f d0 : frag (S f) (JObj d0) ->
-  exists d,
+(* the simplifications before the combinators: a dict of the fragment without const / if / then / else that accepts
+   the same instances *)
+Lemma simplify_sem m d0 : frag (S m) (JObj d0) ->
+  exists d m',
     (forall K : dict -> res json,
      (do dc <- simplify_const (filter (fun '(k, _) => negb (smem k (discard_fields cfg))) d0);
       let d2 := simplify_ite SV dc in
       do d3 <- simplify_type d2; do d' <- simplify_depreq d3; K d') = K d) /\
-    NoDup (map fst d) /\
-    (forall k, k <> kw "type" -> dget k d = dget k d0) /\
-    match dget (kw "type") d0 with
-    | None => dget (kw "type") d = None
-    | Some t => exists T, dget (kw "type") d = Some (JArr T) /\ strs T /\
-                          forall x, kvalid (kw "type") (JArr T) x <-> kvalid (kw "type") t x
-    end.
+    equiv m d0 m' d /\ clean d.
 Proof.
-  intros [ND Hk].
-  assert (Keys : forall k v, dget k d0 = Some v -> In k (SK ++ CK)).
-  { intros k v G. apply in_or_app. destruct (Hk k v G) as [[I _]|[[-> _]|[[-> _]|[-> _]]]]; auto; right; cbv; tauto. }
-  assert (Absent : forall k, ~ In k (SK ++ CK) -> dget k d0 = None).
-  { intros k N. destruct (dget k d0) eqn:G; auto. exfalso. apply N. eapply Keys; eauto. }
+  intros F.
   assert (E1 : filter (fun '(k, _) => negb (smem k (discard_fields cfg))) d0 = d0).
   { apply filter_all. intros [k v] Hin. apply negb_true_iff. apply DF.
-    apply (in_map fst) in Hin. destruct (in_keys_dget k d0 Hin) as [v' G]. eapply Keys; eauto. }
+    apply (in_map fst) in Hin. destruct (in_keys_dget k d0 Hin) as [v' G]. eapply frag_keys; eauto. }
   rewrite E1.
-  assert (A : forall s, ~ In (kw s) (SK ++ CK) -> dget (kw s) d0 = None) by (intros; apply Absent; auto).
-  assert (Ec : simplify_const d0 = Ok d0).
-  { unfold simplify_const. rewrite (A "const"%string); [reflexivity|]. cbv. intuition discriminate. }
-  rewrite Ec. cbn [bind].
-  assert (Ei : simplify_ite SV d0 = d0).
-  { unfold simplify_ite, dhas. rewrite (A "if"%string), (A "then"%string), (A "else"%string); [reflexivity| | |]; cbv; intuition discriminate. }
-  rewrite Ei. cbv zeta.
-  assert (Dep : forall d, (forall k, k <> kw "type" -> dget k d = dget k d0) -> simplify_depreq d = Ok d).
-  { intros d H. unfold simplify_depreq. rewrite H by (intros X; cbv in X; discriminate X).
-    rewrite (A "dependentRequired"%string); [reflexivity|]. cbv. intuition discriminate. }
-  unfold simplify_type.
-  destruct (dget (kw "type") d0) as [t|] eqn:Gt.
-  - destruct (Hk _ _ Gt) as [(_ & W & NI)|[[X _]|[[X _]|[X _]]]]; try (cbv in X; discriminate X).
-    specialize (NI eq_refl). unfold wtv in W. change (iskw (kw "type") "type") with true in W. cbv iota in W.
-    rewrite (strs_hashable _ W). cbn [negb].
-    set (s := pset (to_list t)).
-    assert (Ss : strs s) by (intros j Hj; apply W; apply pset_subset; exact Hj).
-    assert (Sin : forall u, In (JStr u) s <-> In (JStr u) (to_list t)) by (intros u; apply pset_strs_in; exact W).
-    assert (NoInt : pmem (jstr "integer") s = false).
-    { destruct (pmem (jstr "integer") s) eqn:M; auto. exfalso. apply pmem_spec in M. destruct M as (e & He & Ee).
-      destruct (Ss e He) as [u ->]. apply py_eqb_str in Ee. subst u. apply NI. apply Sin. exact He. }
-    assert (Fin : forall (T : list json), (forall u, In (JStr u) T <-> In (JStr u) (to_list t)) -> strs T ->
-              forall d, d = dset (kw "type") (JArr T) d0 ->
-              (forall K : dict -> res json, (do d3 <- Ok d; do d' <- simplify_depreq d3; K d') = K d) /\ NoDup (map fst d) /\
-              (forall k, k <> kw "type" -> dget k d = dget k d0) /\
-              exists T', dget (kw "type") d = Some (JArr T') /\ strs T' /\
-                         forall x, kvalid (kw "type") (JArr T') x <-> kvalid (kw "type") t x).
-    { intros T HT ST d ->. cbn [bind].
-      assert (O : forall k, k <> kw "type" -> dget k (dset (kw "type") (JArr T) d0) = dget k d0)
-        by (intros k N; apply dget_dset_other; auto).
-      split; [intros K; cbn [bind]; rewrite (Dep _ O); reflexivity|]. split; [apply dset_nodup; exact ND|]. split; [exact O|].
-      exists T. split; [apply dget_dset_same|]. split; [exact ST|].
-      intros x. kvat. rewrite (type_names_to_list t), !names_in. apply HT. }
-    destruct (pmem (jstr "number") s) eqn:Mn.
-    + set (T := filter (fun y => negb (py_eqb y (jstr "integer"))) s).
-      destruct (Fin T) with (d := dset (kw "type") (JArr T) d0) as (A1 & A2 & A3 & A4); auto.
-      * intros u. unfold T. rewrite filter_In, Sin. split; [tauto|]. intros H. split; auto.
-        apply negb_true_iff. destruct (py_eqb (JStr u) (jstr "integer")) eqn:E; auto. exfalso.
-        apply py_eqb_str in E. subst u. exact (NI H).
-      * intros j Hj. unfold T in Hj. apply filter_In in Hj. apply Ss. tauto.
-      * eexists. split; [exact A1|]. auto.
-    + rewrite NoInt.
-      destruct (Fin s Sin Ss (dset (kw "type") (JArr s) d0) eq_refl) as (A1 & A2 & A3 & A4).
-      eexists. split; [exact A1|]. auto.
-  - exists d0. split; [intros K; cbn [bind]; rewrite (Dep d0 (fun k _ => eq_refl)); reflexivity|]. split; [exact ND|]. split; [auto|exact Gt].
+  destruct (const_equiv m d0 F) as (dc & Ec & Cc & Qc & _). rewrite Ec. cbn [bind].
+  destruct (ite_equiv SV m dc (proj1 Qc) FL) as (m' & Qi & Ii & It & Ie & Ic). specialize (Ic Cc).
+  set (d2 := simplify_ite SV dc) in *.
+  destruct (type_equiv m' d2 (proj1 Qi)) as (d3 & Et & Qt & Ot).
+  exists d3, m'. split; [|split].
+  - intros K. cbv zeta. fold d2. rewrite Et. cbn [bind].
+    unfold simplify_depreq. rewrite (frag_absent m' d3 (proj1 Qt) (kw "dependentRequired")) by (cbv; intuition discriminate).
+    reflexivity.
+  - eapply equiv_trans; [exact Qc|]. eapply equiv_trans; [exact Qi|exact Qt].
+  - unfold clean. rewrite !Ot by (intros X; cbv in X; discriminate X). auto.
 Qed.
 
 (* the loops over the members of allOf / anyOf, given the statement for the members *)
@@ -353,6 +805,7 @@ Proof.
     + intros (a' & [<-|Ha] & Pa); [left; apply H; assumption|right; apply IH; exists a'; auto].
 Qed.
 
+
 Lemma to_dnf_obj f d0 : to_dnf SV cfg (S f) (JObj d0) =
     (do dc <- simplify_const (filter (fun '(k, _) => negb (smem k (discard_fields cfg))) d0);
     let d2 := simplify_ite SV dc in
@@ -388,6 +841,7 @@ Lemma to_dnf_obj f d0 : to_dnf SV cfg (S f) (JObj d0) =
     do s <- merge cfg (obj1 "anyOf" (JArr [JObj side]) :: all1 ++ all2);
     merge cfg [obj1 "anyOf" (JArr any_ofs); obj1 "anyOf" (JArr one_ofs); s]).
 Proof. reflexivity. Qed.
+
 
 Definition is4 (k : str) : bool :=
   str_eqb k (kw "not") || str_eqb k (kw "oneOf") || str_eqb k (kw "anyOf") || str_eqb k (kw "allOf").
@@ -426,6 +880,101 @@ Lemma forall2_inst {A B X} (R : A -> B -> X -> Prop) l ls :
   Forall2 (fun a b => forall x, R a b x) l ls -> forall x, Forall2 (fun a b => R a b x) l ls.
 Proof. intros H x0. induction H; constructor; auto. Qed.
 
+
+(* ---------- oneOf ---------- *)
+Definition part_step (idx : nat) := (fun (acc2 : list json) '((sub_idx, i) : nat * json) =>
+   if sub_idx =? idx then Ok (acc2 ++ [i]) else do x <- invert cfg i; Ok (acc2 ++ [x])).
+
+Lemma parts_sem idx : forall (ls : list (list dict)) k acc r, Forall (Forall galt) ls ->
+  foldM (part_step idx) (enum_from k (map dnf_of ls)) acc = Ok r ->
+  exists ps, r = acc ++ map dnf_of ps /\ Forall (Forall galt) ps /\
+    forall x, Forall (fun p => alts_valid p x) ps <->
+              (forall j l, nth_error ls j = Some l -> if k + j =? idx then alts_valid l x else ~ alts_valid l x).
+Proof.
+  induction ls as [|l ls IH]; intros k acc r Fl H; cbn [map enum_from foldM] in H.
+  - inversion H; subst. exists []. cbn [map]. rewrite app_nil_r. split; [reflexivity|]. split; [constructor|].
+    intros x. split; [intros _ j l0 E; destruct j; discriminate E|constructor].
+  - inversion Fl as [|? ? Gl Fl']; subst. unfold part_step at 1 in H.
+    assert (Step : exists p, (if k =? idx then Ok (acc ++ [dnf_of l]) else do x <- invert cfg (dnf_of l); Ok (acc ++ [x])) = Ok (acc ++ [dnf_of p]) /\
+                     Forall galt p /\ forall x, alts_valid p x <-> if k =? idx then alts_valid l x else ~ alts_valid l x).
+    { destruct (k =? idx).
+      - exists l. split; [reflexivity|]. split; [exact Gl|tauto].
+      - destruct (invert cfg (dnf_of l)) as [i| | |] eqn:Ei; cbn [bind] in H; try discriminate.
+        destruct (invert_sem cfg l i FM Gl Ei) as (li & -> & Gi & Eqi). exists li. split; [reflexivity|]. split; [exact Gi|exact Eqi]. }
+    destruct Step as (p & Es & Gp & Eqp). rewrite Es in H. cbn [bind] in H.
+    destruct (IH (S k) _ _ Fl' H) as (ps & -> & Fp & Eqs).
+    exists (p :: ps). cbn [map]. rewrite <- app_assoc. split; [reflexivity|]. split; [constructor; auto|].
+    intros x. split.
+    + intros Hx j l0 E. inversion Hx as [|? ? Hp Hps]; subst. destruct j as [|j]; cbn in E.
+      * inversion E; subst. rewrite Nat.add_0_r. apply Eqp. exact Hp.
+      * replace (k + S j) with (S k + j) by lia. apply (proj1 (Eqs x) Hps j l0 E).
+    + intros Hx. constructor.
+      * apply Eqp. specialize (Hx 0 l eq_refl). rewrite Nat.add_0_r in Hx. exact Hx.
+      * apply Eqs. intros j l0 E. specialize (Hx (S j) l0 E). replace (k + S j) with (S k + j) in Hx by lia. exact Hx.
+Qed.
+
+Definition idx_step (subs : list json) := (fun (acc : list json) (idx : nat) =>
+   do parts <- foldM (fun acc2 '(sub_idx, i) =>
+                        if sub_idx =? idx then Ok (acc2 ++ [i])
+                        else do x <- invert cfg i; Ok (acc2 ++ [x])) (enumerate subs) [];
+   do o <- merge cfg parts;
+   do a <- any_of o; Ok (acc ++ a)).
+
+Lemma idxs_sem (ls : list (list dict)) : Forall (Forall galt) ls -> forall idxs acc r,
+  foldM (idx_step (map dnf_of ls)) idxs acc = Ok r ->
+  exists Ls, r = acc ++ map JObj (List.concat Ls) /\ Forall (Forall galt) Ls /\
+    forall x, Exists (fun L => alts_valid L x) Ls <->
+              exists idx, In idx idxs /\ forall j l, nth_error ls j = Some l -> if j =? idx then alts_valid l x else ~ alts_valid l x.
+Proof.
+  intros Fl. induction idxs as [|idx idxs IH]; intros acc r H; cbn [foldM] in H.
+  - inversion H; subst. exists []. cbn [List.concat map]. rewrite app_nil_r. split; [reflexivity|]. split; [constructor|].
+    intros x. split; [intros X; inversion X|intros (i & [] & _)].
+  - unfold idx_step at 1 in H. unfold enumerate in H.
+    match type of H with bind (bind ?X _) _ = _ => destruct X as [parts| | |] eqn:EP end; cbn [bind] in H; try discriminate.
+    destruct (parts_sem idx ls 0 [] parts Fl EP) as (ps & -> & Fp & Eqp). cbn [app] in H.
+    unfold merge in H. rewrite FM in H.
+    destruct (merge_full_ (map dnf_of ps)) as [o| | |] eqn:EM; cbn [bind] in H; try discriminate.
+    destruct (merge_full_sem ps o Fp EM) as (Lo & -> & Go & Eqo). rewrite any_of_dnf in H. cbn [bind] in H.
+    destruct (IH _ _ H) as (Ls & -> & FL' & EqL).
+    exists (Lo :: Ls). cbn [List.concat]. rewrite map_app, <- app_assoc. split; [reflexivity|]. split; [constructor; auto|].
+    intros x. split.
+    + intros X. inversion X as [? ? V|? ? V]; subst.
+      * exists idx. split; [left; reflexivity|]. apply Eqo in V. exact (proj1 (Eqp x) V).
+      * apply EqL in V. destruct V as (i & Hi & Vi). exists i. split; [right; exact Hi|exact Vi].
+    + intros (i & [<-|Hi] & Vi).
+      * left. apply Eqo. apply Eqp. exact Vi.
+      * right. apply EqL. exists i. auto.
+Qed.
+
+Lemma one_of_nth {A} (P : A -> Prop) (l : list A) :
+  one_of P l <-> exists idx, In idx (seq 0 (List.length l)) /\ forall j s, nth_error l j = Some s -> if j =? idx then P s else ~ P s.
+Proof.
+  unfold one_of. split.
+  - intros (i & s & N & Ps & O). exists i. split.
+    + apply in_seq. split; [lia|]. cbn. apply nth_error_Some. congruence.
+    + intros j s' Ns. destruct (Nat.eqb_spec j i) as [->|Ne]; [congruence|]. apply (O j s' Ne Ns).
+  - intros (i & Hi & V). apply in_seq in Hi. destruct (nth_error l i) as [s|] eqn:N; [|apply nth_error_None in N; lia].
+    exists i, s. split; [exact N|]. split.
+    + specialize (V i s N). rewrite Nat.eqb_refl in V. exact V.
+    + intros j s' Nj Ns. specialize (V j s' Ns). destruct (Nat.eqb_spec j i); [contradiction|exact V].
+Qed.
+
+Lemma forall2_one_of {A B} (P : A -> Prop) (Q : B -> Prop) l ls :
+  Forall2 (fun a b => Q b <-> P a) l ls -> (one_of Q ls <-> one_of P l).
+Proof.
+  intros F. unfold one_of.
+  assert (N : forall j, match nth_error l j, nth_error ls j with
+                        | Some a, Some b => Q b <-> P a | None, None => True | _, _ => False end).
+  { induction F as [|a b l ls H F IH]; intros [|j]; cbn [nth_error]; [exact I|exact I|exact H|apply IH]. }
+  split.
+  - intros (i & b & Nb & Qb & O). specialize (N i) as Ni. rewrite Nb in Ni. destruct (nth_error l i) as [a|] eqn:Na; [|destruct Ni].
+    exists i, a. split; [exact Na|]. split; [apply Ni; exact Qb|]. intros j a' Nj Naj Pa.
+    specialize (N j). rewrite Naj in N. destruct (nth_error ls j) as [b'|] eqn:Nbj; [|destruct N]. apply (O j b' Nj Nbj). apply N. exact Pa.
+  - intros (i & a & Na & Pa & O). specialize (N i) as Ni. rewrite Na in Ni. destruct (nth_error ls i) as [b|] eqn:Nb; [|destruct Ni].
+    exists i, b. split; [exact Nb|]. split; [apply Ni; exact Pa|]. intros j b' Nj Nbj Qb.
+    specialize (N j). rewrite Nbj in N. destruct (nth_error l j) as [a'|] eqn:Naj; [|destruct N]. apply (O j a' Nj Naj). apply N. exact Qb.
+Qed.
+
 (* _to_dnf on the fragment: an any-of list of keyword sets, satisfied exactly by the instances the schema accepts *)
 Theorem to_dnf_sem : forall f m s, frag m s -> spec_at f m s.
 Proof.
@@ -438,52 +987,53 @@ Proof.
     + exists [[(kw "enum", JArr [])]]. split; [reflexivity|]. split; [constructor; [apply false_alt_galt|constructor]|].
       intros x. cbn [sem]. split; [|discriminate]. intros (d & [<-|[]] & V). exfalso. exact (false_alt_invalid x V).
   - rewrite to_dnf_obj in H.
-    destruct (simplify_frag m d0 Fs) as (d & ED & NDd & Oth & Ty). rewrite ED in H. clear ED.
-    destruct Fs as [ND Hk].
-    assert (KA : forall v, dget (kw "anyOf") d0 = Some v -> exists l, v = JArr l /\ forall s', In s' l -> frag m s').
-    { intros v G. destruct (Hk _ _ G) as [[I _]|[[X _]|[[_ R]|[X _]]]];
-        [exfalso; cbv in I; intuition discriminate|cbv in X; discriminate X|exact R|cbv in X; discriminate X]. }
-    assert (KL : forall v, dget (kw "allOf") d0 = Some v -> exists l, v = JArr l /\ forall s', In s' l -> frag m s').
-    { intros v G. destruct (Hk _ _ G) as [[I _]|[[_ R]|[[X _]|[X _]]]];
-        [exfalso; cbv in I; intuition discriminate|exact R|cbv in X; discriminate X|cbv in X; discriminate X]. }
-    assert (KN : forall v, dget (kw "not") d0 = Some v -> frag m v).
-    { intros v G. destruct (Hk _ _ G) as [[I _]|[[X _]|[[X _]|[_ R]]]];
-        [exfalso; cbv in I; intuition discriminate|cbv in X; discriminate X|cbv in X; discriminate X|exact R]. }
-    assert (KO : dget (kw "oneOf") d0 = None).
-    { destruct (dget (kw "oneOf") d0) eqn:G; auto. exfalso.
-      destruct (Hk _ _ G) as [[I _]|[[X _]|[[X _]|[X _]]]]; [cbv in I; intuition discriminate|cbv in X; discriminate X..]. }
-    assert (NT : forall c, In c [kw "anyOf"; kw "allOf"; kw "not"; kw "oneOf"] -> dget c d = dget c d0).
-    { intros c Hc. apply Oth. intros ->. cbv in Hc. intuition discriminate. }
-    rewrite (NT (kw "anyOf")), (NT (kw "oneOf")), (NT (kw "allOf")), (NT (kw "not")), KO in H by (cbv; tauto).
+    destruct (simplify_sem m d0 Fs) as (d & m' & ED & [Fd Qd] & (Cc & Ci & Ct & Ce)). rewrite ED in H. clear ED.
+    assert (IA : In (kw "allOf") LK) by (cbv; tauto). assert (IY : In (kw "anyOf") LK) by (cbv; tauto).
+    assert (IO : In (kw "oneOf") LK) by (cbv; tauto). assert (IN : In (kw "not") UK) by (cbv; tauto).
+    assert (KL : forall k v, In k LK -> dget k d = Some v -> exists l, v = JArr l /\ forall s', In s' l -> frag m' s')
+      by (intros k v I G; exact (frag_list m' d Fd k v G I)).
     (* anyOf *)
     match type of H with bind ?X _ = _ => destruct X as [any_ofs| | |] eqn:EA end; cbn [bind] in H; try discriminate.
     assert (PA : exists LA, any_ofs = map JObj LA /\ Forall galt LA /\
-              forall x, alts_valid LA x <-> (forall l, dget (kw "anyOf") d0 = Some (JArr l) -> exists s', In s' l /\ sem m x s')).
-    { destruct (dget (kw "anyOf") d0) as [v|] eqn:Ga.
-      - destruct (KA v eq_refl) as (l & -> & Fl). cbn [as_list bind] in EA.
-        destruct (fold_any f m l [] any_ofs (fun s' Hs => IH m s' (Fl s' Hs)) EA) as (ls & -> & Fg & F2).
+              forall x, alts_valid LA x <-> (forall l, dget (kw "anyOf") d = Some (JArr l) -> exists s', In s' l /\ sem m' x s')).
+    { destruct (dget (kw "anyOf") d) as [v|] eqn:Ga.
+      - destruct (KL _ v IY Ga) as (l & -> & Fl). cbn [as_list bind] in EA.
+        destruct (fold_any f m' l [] any_ofs (fun s' Hs => IH m' s' (Fl s' Hs)) EA) as (ls & -> & Fg & F2).
         exists (List.concat ls). cbn [app]. split; [reflexivity|]. split; [apply Forall_concat; exact Fg|].
         intros x. rewrite alts_concat.
-        rewrite (forall2_ex (fun s' => sem m x s') (fun l' => alts_valid l' x) l ls)
-          by (exact (forall2_inst _ l ls F2 x)).
+        rewrite (forall2_ex (fun s' => sem m' x s') (fun l' => alts_valid l' x) l ls) by (exact (forall2_inst _ l ls F2 x)).
         split; [intros Hx l' E; inversion E; subst; exact Hx|intros Hx; apply Hx; reflexivity].
       - inversion EA; subst. exists [[]]. split; [reflexivity|]. split; [constructor; [apply galt_nil|constructor]|].
         intros x. split; [intros _ l E; discriminate E|]. intros _. exists []. split; [left; reflexivity|apply dvalid_nil]. }
     destruct PA as (LA & -> & FgA & EqA).
-    (* oneOf is absent *)
-    cbn [bind] in H.
+    (* oneOf *)
+    match type of H with bind ?X _ = _ => destruct X as [one_ofs| | |] eqn:EO end; cbn [bind] in H; try discriminate.
+    assert (PO : exists LO, one_ofs = map JObj LO /\ Forall galt LO /\
+              forall x, alts_valid LO x <-> (forall l, dget (kw "oneOf") d = Some (JArr l) -> one_of (sem m' x) l)).
+    { destruct (dget (kw "oneOf") d) as [v|] eqn:Go.
+      - destruct (KL _ v IO Go) as (l & -> & Fl). cbn [as_list bind] in EO.
+        match type of EO with bind ?X _ = _ => destruct X as [subs| | |] eqn:ES end; cbn [bind] in EO; try discriminate.
+        destruct (fold_all f m' l [] subs (fun s' Hs => IH m' s' (Fl s' Hs)) ES) as (ls & -> & Fg & F2). cbn [app] in EO.
+        destruct (idxs_sem ls Fg _ _ _ EO) as (Ls & -> & FgL & EqL).
+        exists (List.concat Ls). cbn [app]. split; [reflexivity|]. split; [apply Forall_concat; exact FgL|].
+        intros x. rewrite alts_concat, (EqL x), map_length.
+        rewrite <- (one_of_nth (fun l' => alts_valid l' x) ls).
+        rewrite (forall2_one_of (fun s' => sem m' x s') (fun l' => alts_valid l' x) l ls) by (exact (forall2_inst _ l ls F2 x)).
+        split; [intros Hx l' E; inversion E; subst; exact Hx|intros Hx; apply Hx; reflexivity].
+      - inversion EO; subst. exists [[]]. split; [reflexivity|]. split; [constructor; [apply galt_nil|constructor]|].
+        intros x. split; [intros _ l E; discriminate E|]. intros _. exists []. split; [left; reflexivity|apply dvalid_nil]. }
+    destruct PO as (LO & -> & FgO & EqO).
     (* allOf *)
     match type of H with bind ?X _ = _ => destruct X as [all1| | |] eqn:EL end; cbn [bind] in H; try discriminate.
     assert (PL : exists LS1, all1 = map dnf_of LS1 /\ Forall (Forall galt) LS1 /\
               forall x, Forall (fun l => alts_valid l x) LS1 <->
-                        (forall l, dget (kw "allOf") d0 = Some (JArr l) -> forall s', In s' l -> sem m x s')).
-    { destruct (dget (kw "allOf") d0) as [v|] eqn:Gl.
-      - destruct (KL v eq_refl) as (l & -> & Fl). cbn [as_list bind] in EL.
-        destruct (fold_all f m l [] all1 (fun s' Hs => IH m s' (Fl s' Hs)) EL) as (ls & -> & Fg & F2).
+                        (forall l, dget (kw "allOf") d = Some (JArr l) -> forall s', In s' l -> sem m' x s')).
+    { destruct (dget (kw "allOf") d) as [v|] eqn:Gl.
+      - destruct (KL _ v IA Gl) as (l & -> & Fl). cbn [as_list bind] in EL.
+        destruct (fold_all f m' l [] all1 (fun s' Hs => IH m' s' (Fl s' Hs)) EL) as (ls & -> & Fg & F2).
         exists ls. cbn [app]. split; [reflexivity|]. split; [exact Fg|].
         intros x.
-        rewrite (forall2_all (fun s' => sem m x s') (fun l' => alts_valid l' x) l ls)
-          by (exact (forall2_inst _ l ls F2 x)).
+        rewrite (forall2_all (fun s' => sem m' x s') (fun l' => alts_valid l' x) l ls) by (exact (forall2_inst _ l ls F2 x)).
         split; [intros Hx l' E; inversion E; subst; exact Hx|intros Hx; apply Hx; reflexivity].
       - inversion EL; subst. exists []. split; [reflexivity|]. split; [constructor|].
         intros x. split; [intros _ l E; discriminate E|constructor]. }
@@ -491,10 +1041,10 @@ Proof.
     (* not *)
     match type of H with bind ?X _ = _ => destruct X as [all2| | |] eqn:EN end; cbn [bind] in H; try discriminate.
     assert (PN : exists LS2, all2 = map dnf_of LS2 /\ Forall (Forall galt) LS2 /\
-              forall x, Forall (fun l => alts_valid l x) LS2 <-> (forall v, dget (kw "not") d0 = Some v -> ~ sem m x v)).
-    { destruct (dget (kw "not") d0) as [v|] eqn:Gn.
+              forall x, Forall (fun l => alts_valid l x) LS2 <-> (forall v, dget (kw "not") d = Some v -> ~ sem m' x v)).
+    { destruct (dget (kw "not") d) as [v|] eqn:Gn.
       - destruct (to_dnf SV cfg f v) as [nn| | |] eqn:En; cbn [bind] in EN; try discriminate.
-        destruct (IH m v (KN v eq_refl) nn En) as (ln & -> & Fgn & Eqn).
+        destruct (IH m' v (frag_single m' d Fd _ v Gn IN) nn En) as (ln & -> & Fgn & Eqn).
         destruct (invert cfg (dnf_of ln)) as [i| | |] eqn:Ei; cbn [bind] in EN; try discriminate.
         destruct (invert_sem cfg ln i FM Fgn Ei) as (li & -> & Fgi & Eqi). inversion EN; subst.
         exists [li]. split; [reflexivity|]. split; [constructor; [exact Fgi|constructor]|].
@@ -507,25 +1057,23 @@ Proof.
     (* the keyword set beside the combinators *)
     set (side := ddel (kw "not") (ddel (kw "oneOf") (ddel (kw "anyOf") (ddel (kw "allOf") d)))) in *.
     assert (Sget : forall k, dget k side = if is4 k then None else dget k d) by (intros; apply side_get).
+    assert (Scal : forall k v, dget k d = Some v -> is4 k = false -> In k SK).
+    { intros k v G I4. pose proof (proj2 Fd k v G) as Hk.
+      destruct (smem k SK) eqn:E1; [apply smem_In; exact E1|]. exfalso.
+      destruct (smem k LK) eqn:E2.
+      { apply smem_In in E2. cbv in E2. repeat (destruct E2 as [<-|E2]; [discriminate I4|]). destruct E2. }
+      destruct (smem k UK) eqn:E3.
+      { apply smem_In in E3. unfold UK, kws in E3. cbn [map In] in E3.
+        destruct E3 as [<-|[<-|[<-|[<-|[]]]]]; [discriminate I4|congruence|congruence|congruence]. }
+      destruct (str_eqb k (kw "const")) eqn:E4; [|exact Hk]. apply str_eqb_eq in E4. subst k. congruence. }
     assert (Gs : galt side).
-    { split; [|unfold side; repeat apply ddel_nodup; exact NDd].
+    { split; [|unfold side; repeat apply ddel_nodup; exact (frag_nodup m' d Fd)].
       intros k v G. rewrite Sget in G. destruct (is4 k) eqn:I4; [discriminate|].
-      destruct (list_eq_dec Nat.eq_dec k (kw "type")) as [->|Nk].
-      - split; [cbv; tauto|]. destruct (dget (kw "type") d0) as [t|]; [|congruence].
-        destruct Ty as (T & GT & ST & _). rewrite GT in G. inversion G; subst. exact ST.
-      - rewrite (Oth k Nk) in G. destruct (Hk k v G) as [(I & W & _)|[[-> _]|[[-> _]|[-> _]]]]; auto; discriminate I4. }
-    assert (EqS : forall x, dvalid side x <-> (forall k v, dget k d0 = Some v -> In k SK -> kvalid k v x)).
+      pose proof (Scal k v G I4) as Ik. split; [exact Ik|]. exact (proj1 (frag_scalar m' d Fd k v G Ik)). }
+    assert (EqS : forall x, dvalid side x <-> (forall k v, dget k d = Some v -> In k SK -> kvalid k v x)).
     { intros x. split.
-      - intros Hs k v G Ik.
-        destruct (list_eq_dec Nat.eq_dec k (kw "type")) as [->|Nk].
-        + rewrite G in Ty. destruct Ty as (T & GT & _ & ET). apply (proj1 (ET x)). apply Hs. rewrite Sget, (is4_SK _ Ik). exact GT.
-        + apply Hs. rewrite Sget, (is4_SK k Ik), (Oth k Nk). exact G.
-      - intros Hs k v G. rewrite Sget in G. destruct (is4 k) eqn:I4; [discriminate|].
-        destruct (list_eq_dec Nat.eq_dec k (kw "type")) as [->|Nk].
-        + destruct (dget (kw "type") d0) as [t|] eqn:Gt; [|congruence].
-          destruct Ty as (T & GT & _ & ET). rewrite GT in G. inversion G; subst. apply (proj2 (ET x)). apply (Hs _ _ Gt). cbv; tauto.
-        + rewrite (Oth k Nk) in G. apply (Hs k v G).
-          destruct (Hk k v G) as [(I & _)|[[-> _]|[[-> _]|[-> _]]]]; auto; discriminate I4. }
+      - intros Hs k v G Ik. apply Hs. rewrite Sget, (is4_SK k Ik). exact G.
+      - intros Hs k v G. rewrite Sget in G. destruct (is4 k) eqn:I4; [discriminate|]. apply (Hs k v G). exact (Scal k v G I4). }
     (* the two merges *)
     unfold merge in H. rewrite FM in H.
     match type of H with bind ?X _ = _ => destruct X as [s| | |] eqn:ES end; cbn [bind] in H; try discriminate.
@@ -535,16 +1083,18 @@ Proof.
     assert (Fg3 : Forall (Forall galt) (([side] :: nil) ++ LS1 ++ LS2)).
     { apply Forall_app. split; [constructor; [constructor; [exact Gs|constructor]|constructor]|]. apply Forall_app. auto. }
     destruct (merge_full_sem _ s Fg3 ES) as (Ls & -> & Fgs & Eqs).
-    change [obj1 "anyOf" (JArr (map JObj LA)); obj1 "anyOf" (JArr [JObj []]); dnf_of Ls]
-      with (map dnf_of [LA; [[]]; Ls]) in H.
-    destruct (merge_full_sem _ n (Forall_cons _ FgA (Forall_cons _ (Forall_cons _ galt_nil (Forall_nil _)) (Forall_cons _ Fgs (Forall_nil _)))) H)
+    change [obj1 "anyOf" (JArr (map JObj LA)); obj1 "anyOf" (JArr (map JObj LO)); dnf_of Ls]
+      with (map dnf_of [LA; LO; Ls]) in H.
+    destruct (merge_full_sem _ n (Forall_cons _ FgA (Forall_cons _ FgO (Forall_cons _ Fgs (Forall_nil _)))) H)
       as (L & -> & FgL & EqL).
     exists L. split; [reflexivity|]. split; [exact FgL|].
-    intros x. rewrite (EqL x). cbn [sem]. rewrite <- (EqA x), <- (Eq1 x), <- (Eq2 x), <- (EqS x). split.
-    + intros HF. inversion HF as [|? ? HA HF1]; subst. inversion HF1 as [|? ? _ HF2]; subst. inversion HF2 as [|? ? HS _]; subst.
+    intros x. rewrite (EqL x), <- (Qd x). cbn [sem]. rewrite Cc, Ci, <- (EqA x), <- (EqO x), <- (Eq1 x), <- (Eq2 x), <- (EqS x). split.
+    + intros HF. inversion HF as [|? ? HA HF1]; subst. inversion HF1 as [|? ? HO HF2]; subst. inversion HF2 as [|? ? HS _]; subst.
       apply (Eqs x) in HS. apply Forall_app in HS. destruct HS as [HS1 HS23]. apply Forall_app in HS23. destruct HS23 as [HS2 HS3].
-      inversion HS1 as [|? ? Hside _]; subst. destruct Hside as (dd & [<-|[]] & Vd). repeat split; assumption.
-    + intros (VS & V1 & VA & V2). constructor; [exact VA|]. constructor; [exists []; split; [left; reflexivity|apply dvalid_nil]|].
+      inversion HS1 as [|? ? Hside _]; subst. destruct Hside as (dd & [<-|[]] & Vd).
+      split; [exact Vd|]. split; [intros c E; discriminate E|]. split; [exact HS2|]. split; [exact HA|]. split; [exact HO|].
+      split; [exact HS3|intros i E; discriminate E].
+    + intros (VS & _ & V1 & VA & VO & V2 & _). constructor; [exact VA|]. constructor; [exact VO|].
       constructor; [|constructor]. apply Eqs. apply Forall_app. split; [constructor; [exists side; split; [left; reflexivity|exact VS]|constructor]|].
       apply Forall_app. auto.
 Qed.
